@@ -41,7 +41,9 @@ Definition enc_ent (e : entity) : list Z :=
   ++ enc_list (fun i => [zn i]) (sort_by (fun i => i) (e_rm e)).
 Definition enc_ns (n : nspace) : list Z :=
   [zn (n_name n); zn (n_id n)] ++ enc_list enc_ent (sort_by e_name (n_ents n)).
-Definition enc_model (M : dmodel) : list Z := zn (m_tag M) :: enc_list enc_ns (sort_by n_name (m_nss M)).
+(* second number: the value's own look-up tables (namespace_ids, entities_short: short name ->
+   entity) agree with its namespaces — they are derived data here, always 1 *)
+Definition enc_model (M : dmodel) : list Z := zn (m_tag M) :: 1%Z :: enc_list enc_ns (sort_by n_name (m_nss M)).
 
 (* decoding (the property's oracle reads the implementation's dumps) *)
 Definition dec (A : Type) := list Z -> option (A * list Z).
@@ -93,8 +95,10 @@ Definition dec_ns : dec nspace := fun l =>
   end end end.
 Definition dec_model : dec dmodel := fun l =>
   match dec_N l with None => None | Some (tg, l) =>
+  match dec_bool l with None => None | Some (consistent, l) =>
+  if negb consistent then None else          (* look-up tables that disagree with the namespaces: no model *)
   match dec_list dec_ns l with None => None | Some (ns, l) => Some (mkM tg ns, l)
-  end end.
+  end end end.
 
 (* ---------------------------------------------------------------- what the model says *)
 Definition enc_step (r : option err * dmodel) : list Z := verdict_code (fst r) :: enc_model (snd r).
@@ -203,6 +207,37 @@ Definition ns_eqb (a b : nspace) : bool :=
 Definition nss_eqb := list_eqb ns_eqb.
 Definition model_eqb (a b : dmodel) : bool := N.eqb (m_tag a) (m_tag b) && nss_eqb (m_nss a) (m_nss b).
 
+(* after an accepted version the model is the one a peer gets that starts with this very text:
+   every declared entity is there at its place in its namespace (blocks of one namespace count as
+   one), with exactly the declared fields, each with the identifier of its place in the text *)
+Fixpoint fields_as_text (i : N) (ds : list fdecl) (fs : list field) : bool :=
+  match ds with
+  | [] => true
+  | d :: r => match find_field (fd_name d) fs with
+              | Some g => N.eqb (f_short g) (reserved + i) && ftype_eqb (f_type g) (fd_type d) && fields_as_text (i + 1) r fs
+              | None => false
+              end
+  end.
+Definition ns_decls (v : version) (ns : N) : list edecl :=
+  flat_map (fun b => if N.eqb (fst b) ns then snd b else []) (v_blocks v).
+Fixpoint ents_as_text (i : N) (ds : list edecl) (es : list entity) : bool :=
+  match ds with
+  | [] => true
+  | d :: r => match find_ent (ed_name d) es with
+              | Some e => N.eqb (snd (e_short e)) i && N.eqb (len (e_fields e)) (len (ed_fields d))
+                          && fields_as_text 0 (ed_fields d) (e_fields e) && ents_as_text (i + 1) r es
+              | None => false
+              end
+  end.
+Definition as_text (v : version) (M : list nspace) : bool :=
+  forallb (fun b => match ns_decls v (fst b) with
+                    | [] => true
+                    | ds => match find_ns (fst b) M with
+                            | Some n => N.eqb (len (n_ents n)) (len ds) && ents_as_text 0 ds (n_ents n)
+                            | None => false
+                            end
+                    end) (v_blocks v).
+
 (* one step of one bare model, judged on the dumps before / after:
    accepted  => nothing that existed changed id or type, no collisions, new fields readable on old rows
    refused   => nothing changed at all
@@ -210,6 +245,7 @@ Definition model_eqb (a b : dmodel) : bool := N.eqb (m_tag a) (m_tag b) && nss_e
 Definition step_ok (last : option N) (s : step) (verdict : Z) (D D' : dmodel) : bool :=
   (if Z.eqb verdict 0
    then stable_b (m_nss D) (m_nss D') && wf_b (m_nss D') && newfields_b (m_nss D) (m_nss D') && N.eqb (m_tag D') (v_tag (s_ver s))
+        && as_text (s_ver s) (m_nss D')
    else model_eqb D D')
   && (if opt_eqb N.eqb last (Some (v_tag (s_ver s))) then Z.eqb verdict 0 && nss_eqb (m_nss D) (m_nss D') else true).
 
@@ -279,12 +315,12 @@ Fixpoint inst_ok (stored : dmodel) (mem : option dmodel) (steps : list (bool * s
           && inst_ok stored None r ro
       | Some (mem', sto', rows) =>
           let applied := N.eqb (m_tag sto') tag && ok in
-          rows                                           (* every row written before reads the same *)
+          rows                                           (* every row written before reads the same; new entities have no rows *)
           && (if ok then N.eqb (m_tag sto') tag else true)          (* Ok means: this version is now in force *)
           && (if N.eqb (m_tag stored) tag then ok && model_eqb stored sto' else true)   (* same model again: no change *)
           && (if applied
               then stable_b (m_nss stored) (m_nss sto') && wf_b (m_nss sto') && newfields_b (m_nss stored) (m_nss sto')
-                   && model_eqb mem' sto'
+                   && model_eqb mem' sto' && as_text (s_ver s) (m_nss sto')
               else model_eqb stored sto'
                    && match mem with Some m => model_eqb m mem' | None => true end)  (* a refused version has no effect on the running instance *)
           && inst_ok sto' (Some mem') r ro
